@@ -14,8 +14,8 @@ type sx struct {
 	IsL  bool
 }
 
-func atom(s string) *sx   { return &sx{Atom: s} }
-func num(n int) *sx       { return &sx{Atom: strconv.Itoa(n)} }
+func atom(s string) *sx    { return &sx{Atom: s} }
+func num(n int) *sx        { return &sx{Atom: strconv.Itoa(n)} }
 func lst(items ...*sx) *sx { return &sx{List: items, IsL: true} }
 
 // call builds (head args...).
